@@ -1,5 +1,6 @@
 import OrsoVerif.Lemmas.TypeName
 import OrsoVerif.Lemmas.TypeNameSession
+import OrsoVerif.Model.TypeNameDict
 /-!
 # C06 — Type names resolve to exactly the type they denote
 
@@ -503,4 +504,40 @@ example : dropPrefix? (litArray ++ ['<']) (up "array<list>".toList) = some "LIST
 example : List.Forall₂ (fun a b => a.toUpper = b.toUpper) "vArChAr[12]".toList (render (.varchar 12)) := by
   decide
 
+/-! ## The dictionary routes (seventh pass)
+
+`FlatColumn.from_dict` - which `RelationSchema.from_dict`, `FlatColumn.from_json` and the subclasses go through - rewrites
+the dictionary before it calls the constructor.  Its statements are read from the source on every run
+(`Gen.TypeNameDict.fromDictRewrites`).  "A column declared with the name carries them": a declaration must reach the
+constructor with its type entry still the NAME, so that `from_name` resolves it as it does for `FlatColumn(type=name)`. -/
+
+/-- *a column declared with the name carries them*, dictionary routes: a declaration `{'type': t}` without an
+`element_type` key - for every text `t` other than the written form of the untyped column - is handed to the constructor
+unchanged, so the column carries what `from_name t` gives (`declare`, `declared_parameters_carried`).  A rewrite that
+fires on a plain declaration (C06-w9s2: `dic.get('element_type') is None` instead of "the key is there and null", which
+turns the bare name `ARRAY` into the member and loses the VARCHAR element type) breaks this theorem by name. -/
+theorem from_dict_declaration_keeps_name (t : List Char) (ht : t ≠ Gen.TypeNameDict.untypedValue) :
+    TypeNameDict.readDict ⟨.text t, .absent⟩ = some ⟨.text t, .absent⟩ := by
+  have h0 : t ≠ ['0'] := ht
+  by_cases h : t = ['A', 'R', 'R', 'A', 'Y']
+  · subst h; decide
+  · simp [TypeNameDict.readDict, Gen.TypeNameDict.fromDictRewrites, TypeNameDict.evalTests, TypeNameDict.evalTest,
+      TypeNameDict.Decl.get, TypeNameDict.Decl.set, TypeNameDict.DVal.eqText, TypeNameDict.typeKey, TypeNameDict.elemKey, h, h0]
+
+/-- the same with an explicit null element type next to any name other than the written `ARRAY`: `ARRAY<T>`, `array`,
+`LIST`, every other name keep their text (and so the element type the name resolves to). -/
+theorem from_dict_null_element_keeps_name (t : List Char) (ht : t ≠ Gen.TypeNameDict.untypedValue)
+    (ha : t ≠ ['A', 'R', 'R', 'A', 'Y']) :
+    TypeNameDict.readDict ⟨.text t, .null⟩ = some ⟨.text t, .null⟩ := by
+  have h0 : t ≠ ['0'] := ht
+  simp [TypeNameDict.readDict, Gen.TypeNameDict.fromDictRewrites, TypeNameDict.evalTests, TypeNameDict.evalTest,
+    TypeNameDict.Decl.get, TypeNameDict.Decl.set, TypeNameDict.DVal.eqText, TypeNameDict.typeKey, TypeNameDict.elemKey, ha, h0]
+
+/-- the rewrites are live (non-vacuity): the written form of an element-less ARRAY column and of an untyped column are
+read as the members. -/
+example : TypeNameDict.readDict ⟨.text ['A', 'R', 'R', 'A', 'Y'], .null⟩ = some ⟨.member ['A', 'R', 'R', 'A', 'Y'], .null⟩ := by decide
+example : TypeNameDict.readDict ⟨.text ['0'], .absent⟩
+    = some ⟨.member ['_', 'M', 'I', 'S', 'S', 'I', 'N', 'G', '_', 'T', 'Y', 'P', 'E'], .absent⟩ := by decide
+
 end C06
+
